@@ -6,3 +6,6 @@ import InToto.Properties.C11
 #print axioms InToto.C11.refuse_nonintegral_example
 #print axioms InToto.C11.olpc_format_example
 #print axioms InToto.C11.payload_escapes_control_example
+#print axioms InToto.C11.facts_struct_tags
+#print axioms InToto.C11.facts_schema_is_model
+#print axioms InToto.C11.facts_payload_type
